@@ -10,12 +10,18 @@ impl TestFunction {
         match self {
             TestFunction::Length(arg) => length(arg.process(state)),
             TestFunction::Count(arg) => count(arg.process(state)),
-            TestFunction::Match(lhs, rhs) => {
-                regex(lhs.process(state.clone()), rhs.process(state), false)
-            }
-            TestFunction::Search(lhs, rhs) => {
-                regex(lhs.process(state.clone()), rhs.process(state), true)
-            }
+            TestFunction::Match(lhs, rhs) => regex_with(
+                lhs.process(state.clone()),
+                rhs.process(state),
+                false,
+                rhs.is_lit(),
+            ),
+            TestFunction::Search(lhs, rhs) => regex_with(
+                lhs.process(state.clone()),
+                rhs.process(state),
+                true,
+                rhs.is_lit(),
+            ),
             TestFunction::Custom(name, args) => custom(name, args, state),
             TestFunction::Value(arg) => value(arg.process(state)),
             _ => State::nothing(state.root),
@@ -118,6 +124,18 @@ fn count<T: Queryable>(state: State<T>) -> State<T> {
 /// the I-Regexp contained in the string that is the second argument; the result is LogicalTrue
 /// if the string matches the I-Regexp and is LogicalFalse otherwise.
 fn regex<'a, T: Queryable>(lhs: State<'a, T>, rhs: State<'a, T>, substr: bool) -> State<'a, T> {
+    regex_with(lhs, rhs, substr, true)
+}
+
+/// `literal_pattern`: the pattern is a string literal of the query, which is kept as written
+/// (a doubled backslash still stands for one); a pattern that comes from the document is a value
+/// and is used as it is.
+fn regex_with<'a, T: Queryable>(
+    lhs: State<'a, T>,
+    rhs: State<'a, T>,
+    substr: bool,
+    literal_pattern: bool,
+) -> State<'a, T> {
     let to_state = |b| State::bool(b, lhs.root);
     let regex = |v: &str, r: Regex| {
         if substr {
@@ -133,7 +151,7 @@ fn regex<'a, T: Queryable>(lhs: State<'a, T>, rhs: State<'a, T>, substr: bool) -
     };
 
     match (to_str(lhs), to_str(rhs)) {
-        (Some(lhs), Some(rhs)) => Regex::new(&iregexp_dots(&prepare_regex(rhs, substr)))
+        (Some(lhs), Some(rhs)) => Regex::new(&iregexp_dots(&prepare_regex(rhs, substr, literal_pattern)))
             .map(|re| to_state(regex(&lhs, re)))
             .unwrap_or(to_state(false)),
         _ => to_state(false),
@@ -170,7 +188,7 @@ fn iregexp_dots(pattern: &str) -> String {
     res
 }
 
-fn prepare_regex(pattern: String, substring: bool) -> String {
+fn prepare_regex(pattern: String, substring: bool, literal_pattern: bool) -> String {
     let pattern = if !substring {
         // match() has to cover the entire string: anchor the pattern as a whole,
         // `a|b` must not become `^a|b$`
@@ -178,7 +196,7 @@ fn prepare_regex(pattern: String, substring: bool) -> String {
     } else {
         pattern.to_string()
     };
-    let pattern = if pattern.contains("\\\\") {
+    let pattern = if literal_pattern && pattern.contains("\\\\") {
         pattern.replace("\\\\", "\\")
     } else {
         pattern.to_string()
